@@ -70,6 +70,10 @@ for fn, props in fn_props.items():
 files = sorted(k for k in by_file if args.filter in k)
 work = tempfile.mkdtemp(prefix="uqmutscore.")
 try:
+    # private copy of the checker: a rebuild during the run cannot mix versions
+    UQ = os.path.join(work, "uqcheck")
+    shutil.copyfile(os.path.join(ROOT, "bin", "uqcheck"), UQ)
+    os.chmod(UQ, 0o755)
     # 3. generate mutants
     mutants = []  # (rel, idx, desc, props)
     for rel in files:
@@ -92,7 +96,7 @@ try:
         subprocess.run(["rsync", "-a", "--exclude", ".git", REPO + "/", os.path.join(work, f"w{j}", "repo") + "/"], check=True)
     base = {}
     for pid in sorted({p for m in mutants for p in m[3]}):
-        o = subprocess.run([os.path.join(ROOT, "bin", "uqcheck"), "-property", pid, "-repo", os.path.join(work, "w0", "repo"), "-verif", ROOT, "-evidence-dir", os.path.join(work, "ev0")], capture_output=True, text=True).stdout
+        o = subprocess.run([UQ, "-property", pid, "-repo", os.path.join(work, "w0", "repo"), "-verif", ROOT, "-evidence-dir", os.path.join(work, "ev0")], capture_output=True, text=True).stdout
         base[pid] = {re.sub(r" at [^ ]+:\d+.*| at -:.*", "", l.strip()) for l in o.splitlines() if l.strip().startswith("violated ")}
 
     def run(job):
@@ -104,7 +108,7 @@ try:
         try:
             shutil.copyfile(gofile, target)
             for pid in props:
-                o = subprocess.run([os.path.join(ROOT, "bin", "uqcheck"), "-property", pid, "-repo", repo, "-verif", ROOT, "-evidence-dir", os.path.join(work, f"ev{j}")], capture_output=True, text=True).stdout
+                o = subprocess.run([UQ, "-property", pid, "-repo", repo, "-verif", ROOT, "-evidence-dir", os.path.join(work, f"ev{j}")], capture_output=True, text=True).stdout
                 if "LOAD FAILURE" in o or ".load:" in o:
                     res["status"] = "does not compile"
                     break
